@@ -926,7 +926,7 @@ func c08content(c *an.Ctx) {
 	{
 		var bodyCalls []ast.Node
 		an.InspectOwn(f, func(n ast.Node) bool {
-			if call, ok := n.(*ast.CallExpr); ok && an.IsCallTo(info, call, execList) && strings.HasSuffix(an.Str(call.Args[0]), ".List") {
+			if call, ok := n.(*ast.CallExpr); ok && an.IsCallTo(info, call, execList) && strings.HasSuffix(an.Norm(f, call.Args[0]), ".List") {
 				bodyCalls = append(bodyCalls, call)
 			}
 			return true
